@@ -588,7 +588,12 @@ def _dot_product_terms(expr: Expression) -> list[BinaryOp]:
 
 def _extract_coefficient_impl(expr: Expression, var: Variable) -> float:
     """Recursive coefficient extraction."""
-    from optyx.core.vectors import DotProduct, LinearCombination, VectorSum
+    from optyx.core.vectors import (
+        DotProduct,
+        LinearCombination,
+        VectorPowerSum,
+        VectorSum,
+    )
 
     # Constant - contributes 0 to variable coefficient
     if isinstance(expr, Constant):
@@ -628,6 +633,12 @@ def _extract_coefficient_impl(expr: Expression, var: Variable) -> float:
         return sum(
             _extract_coefficient_impl(term, var) for term in _dot_product_terms(expr)
         )
+
+    # VectorPowerSum: sum(x ** 1) is sum(x); sum(x ** 0) is a constant
+    if isinstance(expr, VectorPowerSum):
+        if expr.power == 1 and any(v.name == var.name for v in expr.vector._variables):
+            return 1.0
+        return 0.0
 
     # Binary operations
     if isinstance(expr, BinaryOp):
@@ -718,10 +729,19 @@ def extract_constant_term(expr: Expression) -> float:
 
 def _extract_constant_impl(expr: Expression) -> float:
     """Recursive constant term extraction."""
-    from optyx.core.vectors import DotProduct, LinearCombination, VectorSum
+    from optyx.core.vectors import (
+        DotProduct,
+        LinearCombination,
+        VectorPowerSum,
+        VectorSum,
+    )
 
     if isinstance(expr, DotProduct):
         return sum(_extract_constant_impl(term) for term in _dot_product_terms(expr))
+
+    # sum(x ** 0) is the number of elements; sum(x ** 1) has no constant term
+    if isinstance(expr, VectorPowerSum):
+        return float(len(expr.vector._variables)) if expr.power == 0 else 0.0
 
     if isinstance(expr, Constant):
         return float(expr.value)
@@ -967,6 +987,7 @@ def _extract_all_coefficients_impl(
     from optyx.core.vectors import (
         DotProduct,
         LinearCombination,
+        VectorPowerSum,
         VectorSum,
         VectorVariable,
     )
@@ -979,6 +1000,15 @@ def _extract_all_coefficients_impl(
     if isinstance(expr, DotProduct):
         for term in _dot_product_terms(expr):
             _extract_all_coefficients_impl(term, var_index, result, multiplier)
+        return
+
+    # VectorPowerSum: sum(x ** 1) is sum(x); sum(x ** 0) is a constant
+    if isinstance(expr, VectorPowerSum):
+        if expr.power == 1:
+            for var in expr.vector._variables:
+                idx = var_index.get(var.name)
+                if idx is not None:
+                    result[idx] += multiplier
         return
 
     # Variable - add coefficient at this variable's index
